@@ -22,6 +22,65 @@ EXPLAIN = ("R-ALL field exhaustiveness of matches_with_wildcards / __eq__ vs ofp
            "truth of matching for particular values.")
 LOF = 'openflow.libopenflow_01'; FT = 'openflow.flow_table'
 
+def _fresh_lookup (ctx, repo):
+  """the entry a frame is processed with is the result of a table lookup made for this frame.  An entry remembered from an
+  earlier lookup is only the highest-priority match as long as nothing was added to the table since."""
+  swm = repo.mod('datapaths.switch'); sw = swm.classes.get('SoftwareSwitchBase') if swm is not None else None
+  rx = sw.methods.get('rx_packet') if sw is not None else None
+  if rx is None: return
+  ctx.analysed(rx); g = q.cfg_of(rx)
+  uses = g.nodes_with_call(lambda c: call_name(c) == 'touch_packet' and isinstance(c.func.value, ast.Name))
+  ctx.floor('matched-entry use in rx_packet', len(uses), 1)
+  for n in uses:
+    c = [c for c in q.node_calls(n) if call_name(c) == 'touch_packet'][0]
+    nm = c.func.value.id
+    pv = q.provenance(g, n, nm)
+    other = []
+    for d_, kind, val in pv:
+      if val is None and kind == 'param': other.append((d_, 'a parameter')); continue
+      if isinstance(val, ast.Constant) and val.value is None: continue
+      if isinstance(val, ast.Call) and call_name(val) == 'entry_for_packet': continue
+      other.append((d_, norm(val) if val is not None and not isinstance(val, tuple) else kind))
+    if not other:
+      ctx.ob('R-OWN', rx, "the matched entry is the result of a table lookup made for this frame", True, "`%s` comes from entry_for_packet() only" % nm, (swm, c), 'D4'); continue
+    # a remembered entry: fine only if every change of the table forgets it
+    attrs = set(x.attr for d_, txt in other for x in (ast.walk(ast.parse(txt, mode='eval')) if txt not in ('a parameter',) and not txt.isidentifier() else []) if isinstance(x, ast.Attribute) and norm(x.value) == 'self')
+    attrs -= {'table'}
+    hm = sw.methods.get('_handle_FlowTableModification')
+    verdict = None; why = "`%s` can also come from %s" % (nm, sorted(set(t for d_, t in other)))
+    if attrs and hm is not None:
+      gh = q.cfg_of(hm)
+      for a in attrs:
+        clears = [x for x in gh.nodes if any(call_name(c_) == 'clear' and norm(c_.func.value) == 'self.' + a for c_ in q.node_calls(x))] + \
+                 [q.enclosing_stmt_node(gh, st) for t, v, st, k in q.stores_in(hm.node) if isinstance(t, ast.Attribute) and t.attr == a and norm(t.value) == 'self']
+        clears = [x for x in clears if x is not None]
+        always = bool(clears) and q.must_pass_under(repo, swm, gh, q.Env(), clears, sw)[0]
+        if not always:
+          verdict = False
+          why = ("`%s` can be an entry remembered in self.%s from an earlier lookup (%s), and %s: once a higher-priority (or exact-match) entry that covers the same frames is added, frames of the "
+                 "remembered flow keep hitting the old entry - lookup no longer returns the highest-priority matching entry") % (
+                 nm, a, sorted(set(t for d_, t in other))[0], "the table-modification handler forgets it only on some paths (not when entries are added)" if clears else "nothing forgets it when the table changes")
+    ctx.ob('R-OWN', rx, "the matched entry is the result of a table lookup made for this frame", verdict, why, (swm, c), 'D4')
+
+def effective_priority_rule (ctx, repo, clause):
+  """shared with C04 (the overlap check and the replace-on-identical test compare effective priorities too)"""
+  ft = repo.cls(FT, 'FlowTable'); te = repo.cls(FT, 'TableEntry'); ftm = ft.module
+  # effective priority
+  ep = te.methods.get('effective_priority')
+  if ep is None: raise AnalysisError("TableEntry.effective_priority vanished")
+  eg = q.cfg_of(ep)
+  def rets_under (flag):
+    is_w = lambda e: isinstance(e, ast.Attribute) and e.attr == 'is_wildcarded'
+    is_x = lambda e: isinstance(e, ast.Attribute) and e.attr == 'is_exact'          # the complementary property of ofp_match
+    r = q.reach_under(repo, ftm, eg, q.Env({}, [(is_w, flag), (is_x, not flag)]), te)
+    return [n.ast.value for n in eg.nodes if n.kind == 'return' and n in r and n.ast.value is not None]
+  rw = rets_under(True); rx = rets_under(False)
+  exact = [repo.try_const(ftm, v, te) for v in rx]
+  good = len(rw) == 1 and norm(rw[0]) == 'self.priority' and len(rx) == 1 and isinstance(exact[0], int) and exact[0] > 0xffff
+  ctx.ob('R-AGREE', ep, "an exact match outranks every 16-bit priority; wildcarded entries use their own priority", good,
+         "wildcarded -> %s, exact -> %s" % ([norm(v) for v in rw], exact) if good else
+         "effective priority is %s for a wildcarded entry and %s for an exact one: it must be the entry's own priority resp. a constant above 0xffff" % ([norm(v) for v in rw], [norm(v) for v in rx]), ep, clause)
+
 def run (ctx):
   ctx.explanation = EXPLAIN
   ctx.assumptions = ["ofp_match exposes fields through __getattr__ (None when wildcarded)"]
@@ -161,7 +220,8 @@ def run (ctx):
     ms.append(((lambda e, tc=true_classes: tuple_isi(e) and any(norm(x) in tc for x in e.args[1].elts)), True))
     ms.append(((lambda e, tc=true_classes: tuple_isi(e) and not any(norm(x) in tc for x in e.args[1].elts)), False))
     ex = {'spec_frags': True, 'in_port is not None': True}
-    ms.append((attr_cmp('type', (ast.Lt,), 1536), non_eth)); ms.append((attr_cmp('type', (ast.GtE,), 1536), not non_eth))
+    if non_eth is not None:
+      ms.append((attr_cmp('type', (ast.Lt,), 1536), non_eth)); ms.append((attr_cmp('type', (ast.GtE,), 1536), not non_eth))
     ms.append((attr_cmp('opcode', (ast.LtE,), 255), True)); ms.append((attr_cmp('opcode', (ast.Gt,), 255), False))
     if frag is not None:
       mf, off = frag
@@ -180,8 +240,10 @@ def run (ctx):
       return got_val.endswith(suf) and not got_val[:-len(suf)].endswith(')')
     return False
   def decided (label, e, want, forbid=()):
-    r = q.reach_under(repo, lof, g, e, m)
-    live = [(f_, val) for f_, val, n, st in assigns if n in r]
+    # the stores whose value survives to the return (a default that is overwritten later on every path does not count)
+    fieldof = dict((n, f_) for f_, val, n, st in assigns)
+    fin = q.final_stores_under(repo, lof, g, e, lambda n_: fieldof.get(n_), m)
+    live = [(f_, val) for f_, val, n, st in assigns if n in fin]
     for f_, val in want.items():
       got = [v for ff, v in live if ff == f_]
       good = any(same(val, x) for x in got)
@@ -201,6 +263,9 @@ def run (ctx):
     decided(label, env(('ipv4', 'udp', 'tcp'), frag=fr), ext['fragment'], forbid=[('tp_src', 'p.srcport'), ('tp_dst', 'p.dstport')])
   decided("an ARP packet", env(('arp',)), ext['arp'])
   decided("an 802.3 frame without ethertype", env((), non_eth=True), ext['non_ethertype'])
+  # the boundary by value: 0x05ff is the largest 802.3 length, 0x0600 the smallest EtherType (OpenFlow 1.0, ofp_match.dl_type)
+  decided("a frame whose type/length field is 0x05ff", env((), extra={'packet.type': 0x5ff}, non_eth=None), ext['non_ethertype'], forbid=[('dl_type', 'packet.type')])
+  decided("an Ethernet II frame with EtherType 0x0600", env((), extra={'packet.type': 0x600}, non_eth=None), {'dl_type': 'packet.type'}, forbid=[('dl_type', 'OFP_DL_TYPE_NOT_ETH_TYPE')])
   snap = {(lambda e: isinstance(e, ast.Attribute) and e.attr == 'has_snap'): True,
           (lambda e: isinstance(e, ast.Compare) and isinstance(e.left, ast.Attribute) and e.left.attr == 'oui' and isinstance(e.ops[0], ast.Eq)): True}
   decided("an LLC/SNAP frame with OUI 0", env(('llc',), extra=snap, non_eth=True), ext['snap'])
@@ -213,6 +278,7 @@ def run (ctx):
     if isinstance(n, ast.Compare) and 'oui' in norm(n.left) and isinstance(n.comparators[0], ast.Constant):
       good = isinstance(n.comparators[0].value, bytes)
       ctx.ob('R-BYTES', fp, "SNAP OUI is compared with bytes", good, norm(n) if good else "`%s` compares the 3-byte OUI with a str: never equal, SNAP-encapsulated ethertypes are ignored" % norm(n), (lof, n), 'D5')
+  _fresh_lookup(ctx, repo)
   # ---- D4 table ---------------------------------------------------------------------------------------------
   ft = repo.cls(FT, 'FlowTable'); te = repo.cls(FT, 'TableEntry'); ftm = ft.module
   efp = q.find_method(repo, ft, 'entry_for_packet', 'C03'); ae = q.find_method(repo, ft, 'add_entry', 'C03')
@@ -441,21 +507,7 @@ def run (ctx):
   fpc = [c for c in calls_in(efp.node) if call_name(c) == 'from_packet']
   good = bool(fpc) and norm(kwarg(fpc[0], 'spec_frags', 2)) == 'True' and len(fpc[0].args) >= 2 and norm(fpc[0].args[1]) == efp.params[2]
   ctx.ob('R-AGREE', efp, "the frame is extracted per spec (fragments) with its ingress port", good, norm(fpc[0]) if fpc else "?", efp, 'D4')
-  # effective priority
-  ep = te.methods.get('effective_priority')
-  if ep is None: raise AnalysisError("TableEntry.effective_priority vanished")
-  eg = q.cfg_of(ep)
-  def rets_under (flag):
-    is_w = lambda e: isinstance(e, ast.Attribute) and e.attr == 'is_wildcarded'
-    is_x = lambda e: isinstance(e, ast.Attribute) and e.attr == 'is_exact'          # the complementary property of ofp_match
-    r = q.reach_under(repo, ftm, eg, q.Env({}, [(is_w, flag), (is_x, not flag)]), te)
-    return [n.ast.value for n in eg.nodes if n.kind == 'return' and n in r and n.ast.value is not None]
-  rw = rets_under(True); rx = rets_under(False)
-  exact = [repo.try_const(ftm, v, te) for v in rx]
-  good = len(rw) == 1 and norm(rw[0]) == 'self.priority' and len(rx) == 1 and isinstance(exact[0], int) and exact[0] > 0xffff
-  ctx.ob('R-AGREE', ep, "an exact match outranks every 16-bit priority; wildcarded entries use their own priority", good,
-         "wildcarded -> %s, exact -> %s" % ([norm(v) for v in rw], exact) if good else
-         "effective priority is %s for a wildcarded entry and %s for an exact one: it must be the entry's own priority resp. a constant above 0xffff" % ([norm(v) for v in rw], [norm(v) for v in rx]), ep, 'D4')
+  effective_priority_rule(ctx, repo, 'D4')
   # is_wildcarded: true for every single wildcard bit, false for none
   iw = None
   for bn in m.node.body:
